@@ -29,6 +29,7 @@ CONSTANTS Ops,            \* operation slots; each is used for at most one opera
           Tmo,            \* timeout values an operation may carry (0 = none, -1 = a zero-length timeout, n > 0 = n ticks)
           Horizon,        \* the clock stops advancing here (model checking only)
           AllowFaults,    \* transport faults enabled
+          AllowStall,     \* the peer may stop reading: the driver blocks in the middle of a send until the peer resumes
           AllowCancel,    \* the caller may drop an operation future while it waits (select!, an outer timeout): no scrub is sent
           AbstractTime,   \* TRUE: a timer may fire at any moment (no clock); FALSE: explicit clock `now`
           \* named deviations of the pinned code; all FALSE = the design the properties describe
@@ -57,6 +58,8 @@ Ids == 1..MaxId
 Timed(t) == t # 0
 Dur(t) == IF t < 0 THEN 0 ELSE t
 NoDeadline == 1000000
+(* drv: "run" (in select!), "send" (blocked inside stream.send(): no other branch is served), "exitOk" / "exitErr" *)
+DrvAlive == drv \in {"run", "send"}
 
 (* ------------------------- C05: the allocator ------------------------- *)
 Succ(n) == IF n = MaxId THEN 1 ELSE n + 1
@@ -89,7 +92,7 @@ Init ==
 
 (* =========================== caller side =========================== *)
 
-PushScrub(i) == IF drv = "run" THEN scrubQ' = Append(scrubQ, i) ELSE UNCHANGED scrubQ
+PushScrub(i) == IF DrvAlive THEN scrubQ' = Append(scrubQ, i) ELSE UNCHANGED scrubQ
 
 (* next_msgid + tx.send: no await in between.  i is the ID handed out; AllocLaw says which it must be. *)
 AllocLaw(i) == i = Probe(last, used)
@@ -98,7 +101,7 @@ StartP(o, k, t, a, tg, i) ==
   /\ last' = i /\ used' = used \cup {i}
   /\ oid' = [oid EXCEPT ![o] = i] /\ kind' = [kind EXCEPT ![o] = k] /\ tmo' = [tmo EXCEPT ![o] = t]
   /\ adapted' = [adapted EXCEPT ![o] = a] /\ target' = [target EXCEPT ![o] = tg]
-  /\ IF drv = "run"
+  /\ IF DrvAlive
        THEN /\ reqQ' = Append(reqQ, [id |-> i, op |-> o])
             /\ reply' = [reply EXCEPT ![o] = R("empty")]
             /\ phase' = [phase EXCEPT ![o] = "wait"]
@@ -107,7 +110,7 @@ StartP(o, k, t, a, tg, i) ==
             /\ deadline' = [deadline EXCEPT ![o] = IF Timed(t) THEN now + Dur(t) ELSE NoDeadline]
        ELSE /\ phase' = [phase EXCEPT ![o] = "fail"]                      \* OpSend error, at once
             /\ UNCHANGED <<reqQ, reply, itemRx, itemTx, deadline>>
-  /\ sstate' = [sstate EXCEPT ![o] = IF k = "search" /\ drv # "run" THEN "Error" ELSE @]
+  /\ sstate' = [sstate EXCEPT ![o] = IF k = "search" /\ ~DrvAlive THEN "Error" ELSE @]
   /\ UNCHANGED <<scrubQ, maps, itemQ, sres, envv, hist, now>>
 Start(o, k, t, a, tg) == Cardinality(used) < MaxId /\ StartP(o, k, t, a, tg, Probe(last, used))
 
@@ -263,8 +266,8 @@ CallerGone(o) == kind[o] \in {"single", "search"} /\ reply[o].st = "none"
 \* entry is kept for it and its ID reservation is dropped: nobody is waiting and no scrub may be left to come
 \* stream.send fails: the driver returns Err, everything it owns is dropped
 DrvOpSendFail ==
-  /\ drv = "run" /\ reqQ # <<>>
-  /\ net \notin {"up", "eof", "reset"}           \* a half-closed peer still accepts writes in the mock
+  /\ DrvAlive /\ reqQ # <<>>
+  /\ net \notin {"up", "eof", "reset", "stall"}  \* a half-closed peer still accepts writes in the mock
   /\ drv' = "exitErr" /\ DropAll
   /\ UNCHANGED <<alloc, itemQ, itemRx, callerv, net, s2c, c2s, orphans, tok, hdrop, hist, now>>
 OpRef == LET r == ReqHead  o == r.op  i == r.id  t == target[o] IN
@@ -274,8 +277,14 @@ OpRef == LET r == ReqHead  o == r.op  i == r.id  t == target[o] IN
     [] kind[o] = "abandon" -> [u |-> IF AbandonKeepsTargetId THEN used \ {i} ELSE used \ {i, t},
                                r |-> Restrict(resmap, DOMAIN resmap \ {t}), s |-> Restrict(seamap, DOMAIN seamap \ {t})]
     [] kind[o] = "unbind"  -> [u |-> used, r |-> resmap, s |-> seamap]
+(* the peer does not read: the driver has dequeued the request (it stays at the head of reqQ in the model) and is stuck
+   in stream.send(); it serves no other branch until the write goes through or fails *)
+DrvOpBegin ==
+  /\ drv = "run" /\ reqQ # <<>> /\ net = "stall"
+  /\ drv' = "send"
+  /\ UNCHANGED <<alloc, queues, maps, chans, callerv, net, s2c, c2s, orphans, tok, hdrop, hist, now>>
 DrvOpSentP(U, RS, SS) ==
-  /\ drv = "run" /\ reqQ # <<>>
+  /\ DrvAlive /\ reqQ # <<>> /\ drv' = "run"
   /\ net \in {"up", "eof", "reset"}
   /\ LET r == ReqHead  o == r.op  i == r.id IN
      /\ reqQ' = Tail(reqQ)
@@ -286,9 +295,9 @@ DrvOpSentP(U, RS, SS) ==
                                    THEN (IF reply[o].st = "empty" THEN R("null") ELSE reply[o])
                                    ELSE ReplyAfter(RS, NoOp)[p]]
      /\ net' = IF kind[o] = "unbind" /\ net = "up" THEN "closedByClient" ELSE net
-  /\ UNCHANGED <<last, scrubQ, itemQ, itemRx, callerv, drv, s2c, orphans, tok, hdrop, hist, now>>
+  /\ UNCHANGED <<last, scrubQ, itemQ, itemRx, callerv, s2c, orphans, tok, hdrop, hist, now>>
 DrvOpSent == reqQ # <<>> /\ DrvOpSentP(OpRef.u, OpRef.r, OpRef.s)
-DrvOp == DrvOpSendFail \/ DrvOpSent
+DrvOp == DrvOpSendFail \/ DrvOpSent \/ DrvOpBegin
 
 (* --- receive branch --- *)
 RecvRef == LET m == Head(s2c)  i == m.id IN
@@ -340,7 +349,7 @@ DrvReqClosed ==
 (* ============================ server / environment ============================ *)
 NonFinalSent(o) == Len(SelectSeq(sentFor[o], LAMBDA x : x.typ \in {"ent", "ref", "int"}))
 SrvSend(r, typ) ==
-  /\ net \in {"up", "wfail"} /\ r \in c2s /\ ~r.fin
+  /\ net \in {"up", "wfail", "stall"} /\ r \in c2s /\ ~r.fin
   /\ \/ r.kind = "single" /\ typ = "res"
      \/ r.kind = "search" /\ typ = "done"
      \/ r.kind = "search" /\ typ \in ItemTypes /\ NonFinalSent(r.op) < MaxItems
@@ -354,7 +363,7 @@ SrvSend(r, typ) ==
 (* a response nobody is waiting for: ID 0, or the ID of an operation that is already complete for the client *)
 OrphanIds == {0} \cup {oid[p] : p \in {q \in Ops : phase[q] \in {"done", "fail"} /\ oid[q] # 0}}
 SrvOrphan(i, typ) ==
-  /\ net \in {"up", "wfail"} /\ orphans < MaxOrphans /\ i \in OrphanIds /\ typ \in {"res", "ent", "done"}
+  /\ net \in {"up", "wfail", "stall"} /\ orphans < MaxOrphans /\ i \in OrphanIds /\ typ \in {"res", "ent", "done"}
   /\ i \notin {r.id : r \in {x \in c2s : ~x.fin}}
   /\ i \notin {oid[p] : p \in {q \in Ops : phase[q] \in {"wait", "stream", "next"}}}
   /\ orphans' = orphans + 1 /\ tok' = tok + 1
@@ -362,7 +371,7 @@ SrvOrphan(i, typ) ==
   /\ UNCHANGED <<alloc, queues, maps, chans, callerv, drv, net, c2s, hdrop, hist, now>>
 
 SrvGarbage ==
-  /\ AllowFaults /\ net \in {"up", "wfail"}
+  /\ AllowFaults /\ net \in {"up", "wfail", "stall"}
   /\ s2c' = Append(s2c, [id |-> 0, typ |-> "garbage", tok |-> 0, for |-> NoOp])
   /\ net' = "eof"                                     \* nothing after it matters: the decoder is dead
   /\ UNCHANGED <<alloc, queues, maps, chans, callerv, drv, c2s, orphans, tok, hdrop, hist, now>>
@@ -370,8 +379,14 @@ SrvGarbage ==
 SrvClose(how) ==      \* "eof": orderly close; "reset": read error; "wfail": writes start failing
   /\ how \in {"eof", "reset", "wfail"}
   /\ AllowFaults \/ (net = "closedByClient" /\ how = "eof")
-  /\ net \in {"up", "closedByClient", "wfail"} /\ net # how /\ net' = how
+  /\ net \in {"up", "closedByClient", "wfail", "stall"} /\ net # how /\ net' = how
   /\ UNCHANGED <<alloc, queues, maps, chans, callerv, drv, s2c, c2s, orphans, tok, hdrop, hist, now>>
+
+(* the peer stops / resumes reading what the client writes (a full socket buffer): nothing is lost, writes just wait *)
+SrvStall  == /\ AllowStall /\ net = "up" /\ net' = "stall"
+             /\ UNCHANGED <<alloc, queues, maps, chans, callerv, drv, s2c, c2s, orphans, tok, hdrop, hist, now>>
+SrvResume == /\ net = "stall" /\ net' = "up"
+             /\ UNCHANGED <<alloc, queues, maps, chans, callerv, drv, s2c, c2s, orphans, tok, hdrop, hist, now>>
 
 (* virtual time: Tokio's paused clock only moves when nothing is runnable; the harness moves it one unit at a time *)
 TimerDue == \E o \in Ops : phase[o] \in {"wait", "next"} /\ deadline[o] <= now
@@ -394,7 +409,7 @@ StartStep  == \E o \in Ops, k \in {"single", "search", "abandon", "unbind"}, t \
 ServerStep == \/ \E r \in c2s, typ \in {"res", "ent", "ref", "int", "done"} : SrvSend(r, typ)
               \/ \E i \in 0..MaxId, typ \in {"res", "ent", "done"} : SrvOrphan(i, typ)
               \/ \E how \in {"eof", "reset", "wfail"} : SrvClose(how)
-              \/ SrvGarbage
+              \/ SrvGarbage \/ SrvStall \/ SrvResume
 Next == StartStep \/ CallerStep \/ UserStep \/ DriverStep \/ ServerStep \/ Tick \/ DropHandles
 
 Spec == Init /\ [][Next]_vars
@@ -439,7 +454,7 @@ StreamOK == \A o \in Ops : /\ sstate[o] = "Done" => sres[o].typ = "done"
 
 (* ---- C04 ---- *)
 (* once the driver is gone nobody waits on an empty one-shot or an open item channel *)
-FailFast == (drv # "run") => \A o \in Ops : /\ (phase[o] = "wait" => reply[o].st # "empty")
+FailFast == (~DrvAlive) => \A o \in Ops : /\ (phase[o] = "wait" => reply[o].st # "empty")
                                             /\ (phase[o] = "next" => (itemQ[o] # <<>> \/ ~itemTx[o]))
 (* nothing is invented: see Routing; delivered results survive: a value in a one-shot stays until received *)
 DeliveredSurvives == [][\A o \in Ops : (reply[o].st = "val" /\ phase'[o] = "wait") => reply'[o] = reply[o]]_vars
@@ -447,7 +462,7 @@ UnbindCloses == \A r \in c2s : r.kind = "unbind" => net # "up"
 NobodyWaits == \A o \in Ops : phase[o] \in {"idle", "done", "fail", "stream"}
 Fair == WF_vars(CallerStep) /\ WF_vars(DriverStep)
 FairSpec == Spec /\ Fair
-Termination == [](net \in {"eof", "reset"} => <>(drv # "run" /\ NobodyWaits))
+Termination == [](net \in {"eof", "reset"} => <>(~DrvAlive /\ NobodyWaits))
 (* safety form of the same: a state where the connection is dead, somebody waits, and no internal step is enabled *)
-NotStuck == ((net \in {"eof", "reset"} \/ drv # "run") /\ ~NobodyWaits) => ENABLED (CallerStep \/ DriverStep)
+NotStuck == ((net \in {"eof", "reset"} \/ ~DrvAlive) /\ ~NobodyWaits) => ENABLED (CallerStep \/ DriverStep)
 =============================================================================
